@@ -106,13 +106,32 @@ func (w *WaitGroup) Go(f func()) {
 	})
 }
 
-// Cond is not owned by the simulator: using it marks the run unsupported.
-type Cond struct{ L Locker }
+// Cond stands in for sync.Cond: Wait joins the queue, releases L, blocks until
+// a Signal or Broadcast picks it (first in, first out, as the runtime does) and
+// re-acquires L. There are no spurious wake-ups.
+type Cond struct {
+	L   Locker
+	gen uint8
+}
 
 func NewCond(l Locker) *Cond { return &Cond{L: l} }
-func (c *Cond) Wait()        { simrt.Unsupported("sync.Cond.Wait") }
-func (c *Cond) Signal()      { simrt.Unsupported("sync.Cond.Signal") }
-func (c *Cond) Broadcast()   { simrt.Unsupported("sync.Cond.Broadcast") }
+
+func (c *Cond) Wait() {
+	fresh(unsafe.Pointer(&c.gen), &c.gen)
+	simrt.CondEnqueue(unsafe.Pointer(&c.gen))
+	c.L.Unlock()
+	simrt.CondBlock(unsafe.Pointer(&c.gen))
+	c.L.Lock()
+}
+
+func (c *Cond) Signal() {
+	fresh(unsafe.Pointer(&c.gen), &c.gen)
+	simrt.CondSignal(unsafe.Pointer(&c.gen), false)
+}
+func (c *Cond) Broadcast() {
+	fresh(unsafe.Pointer(&c.gen), &c.gen)
+	simrt.CondSignal(unsafe.Pointer(&c.gen), true)
+}
 
 // Pool stands in for sync.Pool: a LIFO of returned objects (the real pool may
 // also drop objects at any time; reuse is the interesting behaviour).
